@@ -96,8 +96,15 @@ def item_matches(o, exp, st):
     cl = exp[1]
     side = st.world.conns[cl.conn].side
     from .. import printer as P
-    return (o.kind == 'msg' and o.iface == cl.target.iface and o.id == cl.target.id and o.name == cl.name and
-            o.sent == P.is_sent(cl, side))
+    if not (o.kind == 'msg' and o.iface == cl.target.iface and o.id == cl.target.id and o.name == cl.name and
+            o.sent == P.is_sent(cl, side)):
+        return False
+    # the line is the message of *its* connection: the letter in front of it is the ordinal of the connection's first appearance
+    names = getattr(st, '_c08_names', None)
+    if names is None:
+        from .. import oracles
+        names = st._c08_names = oracles.conn_names(st)
+    return o.conn == names[cl.conn]
 
 
 def run_once(sc, st, data, chunks, interrupt_at=None):
